@@ -120,8 +120,13 @@ func c07Random(c *mc.Ctx) {
 		if v := s.NextSequenceNumber(); v != first+1 {
 			c.Failf("successor", "random sequencer: %d followed by %d", first, v)
 		}
-		if r := s.RollOverCount(); r != 0 {
-			c.Failf("rollover-count", "random sequencer starting at %d: RollOverCount %d after two calls", first, r)
+		// the count is the number of zeros handed out (a random start may be 0)
+		zeros := uint64(0)
+		if first == 0 {
+			zeros++
+		}
+		if r := s.RollOverCount(); r != zeros {
+			c.Failf("rollover-count", "random sequencer starting at %d: RollOverCount %d after two calls, the value 0 was handed out %d times", first, r, zeros)
 		}
 	}
 	c.Ops(128 * 4)
